@@ -82,4 +82,334 @@ theorem parameter_in_namespace (u : Option String) (p : LParam) : AllInNs u (wri
   unfold writeParameter
   by_cases h : strTruthy p.longDesc <;> simp [mkEl, AllInNs, AllInNsList, h]
 
+/-! ### the whole document -/
+
+theorem allInNsList_of_mapM {α} (u : Option String) (w : α → LoadM XmlNode) (l : List α) (xs : List XmlNode)
+    (h : ∀ a ∈ l, ∀ x, w a = .ok x → AllInNs u x) (hm : l.mapM w = .ok xs) : AllInNsList u xs := by
+  induction l generalizing xs with
+  | nil => simp [pure, Except.pure] at hm; subst hm; simp [AllInNsList]
+  | cons a l ih =>
+    simp only [List.mapM_cons, bind, Except.bind, pure, Except.pure] at hm
+    cases ha : w a with
+    | error e => simp [ha] at hm
+    | ok b =>
+      simp only [ha] at hm
+      cases hl : l.mapM w with
+      | error e => simp [hl] at hm
+      | ok bs =>
+        simp only [hl] at hm
+        injection hm with hm; subst hm
+        exact ⟨h a (by simp) b ha, ih bs (fun a' ha' => h a' (by simp [ha'])) hl⟩
+
+theorem leaf_in_namespace (u : Option String) (tag : String) (attrs : List (String × String)) (text : Option String) :
+    AllInNs u (mkEl u tag attrs [] text) := by simp [mkEl, AllInNs, AllInNsList]
+
+theorem node_in_namespace (u : Option String) (tag : String) (attrs : List (String × String)) (kids : List XmlNode)
+    (text : Option String) (h : AllInNsList u kids) : AllInNs u (mkEl u tag attrs kids text) := by
+  simp [mkEl, AllInNs, h]
+
+theorem calibrator_in_namespace (u : Option String) (c : Calibrator) (x : XmlNode) (h : writeCalibrator u c = .ok x) :
+    AllInNs u x := by
+  cases c with
+  | spline s =>
+    simp only [writeCalibrator, bind, Except.bind, pure, Except.pure] at h
+    cases hm : s.points.mapM (writeSplinePoint u) with
+    | error e => simp [hm] at h
+    | ok pts =>
+      simp only [hm] at h; injection h with h; subst h
+      refine node_in_namespace u _ _ _ _ (allInNsList_of_mapM u _ _ _ ?_ hm)
+      intro p _ y hy
+      simp only [writeSplinePoint, bind, Except.bind, pure, Except.pure] at hy
+      cases h1 : showFloat (.fin p.raw) with
+      | error e => simp [h1] at hy
+      | ok r =>
+        cases h2 : showFloat (.fin p.cal) with
+        | error e => simp [h1, h2] at hy
+        | ok c => simp only [h1, h2] at hy; injection hy with hy; subst hy; exact leaf_in_namespace u _ _ _
+  | poly ts =>
+    simp only [writeCalibrator, bind, Except.bind, pure, Except.pure] at h
+    cases hm : ts.mapM (writeTerm u) with
+    | error e => simp [hm] at h
+    | ok terms =>
+      simp only [hm] at h; injection h with h; subst h
+      refine node_in_namespace u _ _ _ _ (allInNsList_of_mapM u _ _ _ ?_ hm)
+      intro t _ y hy
+      simp only [writeTerm, bind, Except.bind, pure, Except.pure] at hy
+      cases h1 : showCoef t with
+      | error e => simp [h1] at hy
+      | ok c => simp only [h1] at hy; injection hy with hy; subst hy; exact leaf_in_namespace u _ _ _
+
+theorem criteria_list_in_namespace (u : Option String) (cs : List Criterion) :
+    AllInNsList u (cs.map (writeCriterion u)) :=
+  allInNsList_map u _ _ (fun c _ => criterion_in_namespace u c)
+
+theorem contextmatch_in_namespace (u : Option String) (crit : List Criterion) (x : XmlNode)
+    (h : writeContextMatch u crit = .ok x) : AllInNs u x := by
+  unfold writeContextMatch at h
+  split at h
+  · cases h
+  · injection h with h; subst h
+    exact node_in_namespace u _ _ _ _ ⟨comparison_in_namespace u _, trivial⟩
+  · injection h with h; subst h
+    rename_i e
+    exact node_in_namespace u _ _ _ _ ⟨criterion_in_namespace u (.boolExpr e), trivial⟩
+  · injection h with h; subst h
+    exact node_in_namespace u _ _ _ _ ⟨node_in_namespace u _ _ _ _ (criteria_list_in_namespace u _), trivial⟩
+
+theorem context_calibrator_in_namespace (u : Option String) (c : ContextCalibrator) (x : XmlNode)
+    (h : writeContextCalibrator u c = .ok x) : AllInNs u x := by
+  simp only [writeContextCalibrator, bind, Except.bind, pure, Except.pure] at h
+  cases h1 : writeContextMatch u c.criteria with
+  | error e => simp [h1] at h
+  | ok cm =>
+    cases h2 : writeCalibrator u c.calibrator with
+    | error e => simp [h1, h2] at h
+    | ok cal =>
+      simp only [h1, h2] at h; injection h with h; subst h
+      exact node_in_namespace u _ _ _ _ ⟨contextmatch_in_namespace u _ cm h1,
+        node_in_namespace u _ _ _ _ ⟨calibrator_in_namespace u _ cal h2, trivial⟩, trivial⟩
+
+theorem discrete_lookup_in_namespace (u : Option String) (d : DiscreteLookup) (x : XmlNode)
+    (h : writeDiscreteLookup u d = .ok x) : AllInNs u x := by
+  simp only [writeDiscreteLookup, bind, Except.bind, pure, Except.pure] at h
+  cases hs : showNum d.value with
+  | error e => simp [hs] at h
+  | ok v =>
+    simp only [hs] at h; injection h with h; subst h
+    have hc : AllInNsList u (d.criteria.map (writeComparison u)) :=
+      allInNsList_map u _ _ (fun c _ => comparison_in_namespace u c)
+    split
+    · exact node_in_namespace u _ _ _ _ ⟨node_in_namespace u _ _ _ _ hc, trivial⟩
+    · exact node_in_namespace u _ _ _ _ hc
+
+theorem defaultCal_in_namespace (u : Option String) (d : Option Calibrator) (xs : List XmlNode)
+    (h : writeDefaultCal u d = .ok xs) : AllInNsList u xs := by
+  cases d with
+  | none => simp only [writeDefaultCal] at h; injection h with h; subst h; trivial
+  | some c =>
+    simp only [writeDefaultCal] at h
+    cases hc : writeCalibrator u c with
+    | error e => simp [hc] at h
+    | ok x =>
+      simp only [hc] at h; injection h with h; subst h
+      exact ⟨node_in_namespace u _ _ _ _ ⟨calibrator_in_namespace u c x hc, trivial⟩, trivial⟩
+
+theorem contextList_in_namespace (u : Option String) (ctxs : List ContextCalibrator) (xs : List XmlNode)
+    (h : writeContextList u ctxs = .ok xs) : AllInNsList u xs := by
+  unfold writeContextList at h
+  split at h
+  · injection h with h; subst h; trivial
+  · cases hm : ctxs.mapM (writeContextCalibrator u) with
+    | error e => simp [hm] at h
+    | ok ys =>
+      simp only [hm] at h; injection h with h; subst h
+      exact ⟨node_in_namespace u _ _ _ _
+        (allInNsList_of_mapM u _ _ _ (fun c _ y hy => context_calibrator_in_namespace u c y hy) hm), trivial⟩
+
+theorem pir_in_namespace (u : Option String) (r : String) (b : Bool) : AllInNs u (writeParamInstanceRef u r b) :=
+  leaf_in_namespace u _ _ _
+
+theorem linadj_in_namespace (u : Option String) (a : LinAdj) : AllInNs u (writeLinAdj u a) := leaf_in_namespace u _ _ _
+
+theorem lookups_in_namespace (u : Option String) (l : List DiscreteLookup) (xs : List XmlNode)
+    (h : l.mapM (writeDiscreteLookup u) = .ok xs) : AllInNsList u xs :=
+  allInNsList_of_mapM u _ _ _ (fun d _ y hy => discrete_lookup_in_namespace u d y hy) h
+
+/-- Encodings of every kind are written entirely inside the namespace. -/
+theorem encoding_in_namespace (u : Option String) (e : Encoding) (x : XmlNode) (h : writeEncoding u e = .ok x) :
+    AllInNs u x := by
+  cases e with
+  | num ne =>
+    simp only [writeEncoding, bind, Except.bind, pure, Except.pure] at h
+    cases hd : writeDefaultCal u ne.cals.default with
+    | error err => simp [hd] at h
+    | ok d =>
+      cases hc : writeContextList u ne.cals.contexts with
+      | error err => simp [hd, hc] at h
+      | ok cs =>
+        simp only [hd, hc] at h; injection h with h; subst h
+        exact node_in_namespace u _ _ _ _ ((allInNsList_append u d cs).mpr
+          ⟨defaultCal_in_namespace u _ d hd, contextList_in_namespace u _ cs hc⟩)
+  | bin be =>
+    simp only [writeEncoding, bind, Except.bind, pure, Except.pure] at h
+    split at h
+    · injection h with h; subst h
+      simp [mkEl, AllInNs, AllInNsList]
+    · have hdv : AllInNsList u (if strTruthy be.sizeRef = true then
+          [mkEl u "DynamicValue" [] (writeParamInstanceRef u (be.sizeRef.getD "") be.useCal ::
+            match be.adjuster with | some a => [writeLinAdj u a] | none => [])] else []) := by
+        split
+        · refine ⟨node_in_namespace u _ _ _ _ ⟨pir_in_namespace u _ _, ?_⟩, trivial⟩
+          cases be.adjuster with
+          | none => trivial
+          | some a => exact ⟨linadj_in_namespace u a, trivial⟩
+        · trivial
+      split at h
+      · cases hm : (be.lookup.getD []).mapM (writeDiscreteLookup u) with
+        | error e => simp [hm] at h
+        | ok ys =>
+          simp only [hm] at h; injection h with h; subst h
+          exact node_in_namespace u _ _ _ _ ⟨node_in_namespace u _ _ _ _ ((allInNsList_append u _ _).mpr
+            ⟨hdv, node_in_namespace u _ _ _ _ (lookups_in_namespace u _ ys hm), trivial⟩), trivial⟩
+      · injection h with h; subst h
+        exact node_in_namespace u _ _ _ _ ⟨node_in_namespace u _ _ _ _ ((allInNsList_append u _ _).mpr ⟨hdv, trivial⟩),
+          trivial⟩
+  | str se =>
+    simp only [writeEncoding, bind, Except.bind, pure, Except.pure] at h
+    have htail : ∀ (hexf : UInt8 → List Char), AllInNsList u ((if optTruthy se.leadingSize = true then
+          [mkEl u "LeadingSize" [("sizeInBitsOfSizeTag", toString (se.leadingSize.getD 0))] []] else []) ++
+        match se.termChar with
+        | some t => if List.isEmpty t = true then []
+                    else [mkEl u "TerminationChar" [] [] (some (String.ofList (List.flatMap hexf t)))]
+        | none => []) := by
+      intro hexf
+      rw [allInNsList_append]
+      constructor
+      · split
+        · exact ⟨leaf_in_namespace u _ _ _, trivial⟩
+        · trivial
+      · cases se.termChar with
+        | none => trivial
+        | some t =>
+          simp only
+          split
+          · trivial
+          · exact ⟨leaf_in_namespace u _ _ _, trivial⟩
+    have hpir : AllInNsList u ([writeParamInstanceRef u (se.dynRef.getD "") se.useCal] ++
+        match se.adjuster with | some a => [writeLinAdj u a] | none => []) := by
+      refine ⟨pir_in_namespace u _ _, ?_⟩
+      cases se.adjuster with
+      | none => trivial
+      | some a => exact ⟨linadj_in_namespace u a, trivial⟩
+    simp only [mkEl] at h htail hpir
+    split at h
+    · injection h with h; subst h
+      simp only [AllInNs, AllInNsList, and_true, true_and]
+      rw [List.append_assoc, allInNsList_append]
+      exact ⟨by simp [AllInNs, AllInNsList], htail _⟩
+    · split at h
+      · injection h with h; subst h
+        simp only [AllInNs, AllInNsList, and_true, true_and]
+        rw [List.append_assoc, allInNsList_append]
+        exact ⟨⟨⟨rfl, hpir⟩, trivial⟩, htail _⟩
+      · split at h
+        · cases hm : (se.lookup.getD []).mapM (writeDiscreteLookup u) with
+          | error e => simp [hm] at h
+          | ok ys =>
+            simp only [hm] at h; injection h with h; subst h
+            simp only [AllInNs, AllInNsList, and_true, true_and]
+            rw [List.append_assoc, allInNsList_append]
+            exact ⟨⟨⟨rfl, lookups_in_namespace u _ ys hm⟩, trivial⟩, htail _⟩
+        · cases h
+
+theorem ptype_in_namespace (u : Option String) (t : LPType) (x : XmlNode) (h : writeParameterType u t = .ok x) :
+    AllInNs u x := by
+  unfold writeParameterType at h
+  have href : AllInNsList u (timeReference u t) := by
+    unfold timeReference
+    split
+    · refine ⟨node_in_namespace u _ _ _ _ ((allInNsList_append u _ _).mpr ⟨?_, ?_⟩), trivial⟩
+      · split
+        · exact ⟨leaf_in_namespace u _ _ _, trivial⟩
+        · trivial
+      · split
+        · exact ⟨leaf_in_namespace u _ _ _, trivial⟩
+        · trivial
+    · trivial
+  have hunit : AllInNsList u (if strTruthy t.unit then [mkEl u "UnitSet" [] [mkEl u "Unit" [] [] t.unit]] else []) := by
+    split
+    · exact ⟨node_in_namespace u _ _ _ _ ⟨leaf_in_namespace u _ _ _, trivial⟩, trivial⟩
+    · trivial
+  split at h
+  · -- time types
+    split at h
+    · rename_i ne henc
+      cases hso : timeScaleOffset ne with
+      | error e => simp [hso] at h
+      | ok so =>
+        simp only [hso] at h
+        cases he : writeEncoding u t.enc with
+        | error e => simp [he] at h
+        | ok encEl =>
+          simp only [he] at h; injection h with h; subst h
+          exact node_in_namespace u _ _ _ _ ((allInNsList_append u _ _).mpr
+            ⟨⟨node_in_namespace u _ _ _ _ ⟨encoding_in_namespace u _ encEl he, trivial⟩, trivial⟩, href⟩)
+    · cases h
+  · cases he : writeEncoding u t.enc with
+    | error e => simp [he] at h
+    | ok encEl =>
+      have hE := encoding_in_namespace u _ encEl he
+      simp only [he] at h
+      split at h
+      · cases hm : t.enumeration.mapM (writeEnumEntry u t.enc) with
+        | error e => simp [hm] at h
+        | ok ens =>
+          simp only [hm] at h; injection h with h; subst h
+          have hens : AllInNsList u ens := by
+            refine allInNsList_of_mapM u _ _ _ ?_ hm
+            intro kv _ y hy
+            unfold writeEnumEntry at hy
+            split at hy
+            · cases hy
+            · injection hy with hy; subst hy; exact leaf_in_namespace u _ _ _
+          exact node_in_namespace u _ _ _ _ ((allInNsList_append u _ _).mpr
+            ⟨hunit, hE, node_in_namespace u _ _ _ _ hens, trivial⟩)
+      · injection h with h; subst h
+        exact node_in_namespace u _ _ _ _ ((allInNsList_append u _ _).mpr ⟨hunit, hE, trivial⟩)
+
+theorem container_in_namespace (u : Option String) (c : LContainer) (x : XmlNode) (h : writeContainer u c = .ok x) :
+    AllInNs u x := by
+  unfold writeContainer at h
+  simp only [bind, Except.bind, pure, Except.pure] at h
+  split at h
+  · simp [throw, throwThe, MonadExceptOf.throw] at h
+  · injection h with h; subst h
+    refine node_in_namespace u _ _ _ _ ?_
+    rw [allInNsList_append, allInNsList_append]
+    refine ⟨⟨?_, ?_⟩, ?_, trivial⟩
+    · split
+      · exact ⟨leaf_in_namespace u _ _ _, trivial⟩
+      · trivial
+    · split
+      · refine ⟨node_in_namespace u _ _ _ _ ?_, trivial⟩
+        split
+        · trivial
+        · refine ⟨node_in_namespace u _ _ _ _ ⟨?_, trivial⟩, trivial⟩
+          split
+          · exact criterion_in_namespace u _
+          · exact node_in_namespace u _ _ _ _ (criteria_list_in_namespace u _)
+      · trivial
+    · refine node_in_namespace u _ _ _ _ (allInNsList_map u _ _ ?_)
+      intro e _
+      cases e <;> exact leaf_in_namespace u _ _ _
+
+/-- **Every element of the written document lies in the definition's XTCE namespace** (or in no namespace when the
+    definition has none): the whole of `to_xml_tree()`. -/
+theorem document_in_namespace (d : LDef) (x : XmlNode) (h : toXml d = .ok x) :
+    AllInNs ((d.nsmap.find? (·.1 == d.nsPrefix)).map (·.2)) x := by
+  unfold toXml at h
+  simp only [bind, Except.bind, pure, Except.pure] at h
+  generalize (d.nsmap.find? (·.1 == d.nsPrefix)).map (·.2) = u at h ⊢
+  cases hd : d.date with
+  | none => simp [hd, throw, throwThe, MonadExceptOf.throw] at h
+  | some date =>
+    simp only [hd] at h
+    cases ht : d.ptypes.mapM (fun kv => writeParameterType u kv.2) with
+    | error e => simp [ht] at h
+    | ok ts =>
+      simp only [ht] at h
+      cases hc : d.containers.mapM (fun kv => writeContainer u kv.2) with
+      | error e => simp [hc] at h
+      | ok cs =>
+        simp only [hc] at h; injection h with h; subst h
+        have hts : AllInNsList u ts :=
+          allInNsList_of_mapM u _ _ _ (fun kv _ y hy => ptype_in_namespace u kv.2 y hy) ht
+        have hcs : AllInNsList u cs :=
+          allInNsList_of_mapM u _ _ _ (fun kv _ y hy => container_in_namespace u kv.2 y hy) hc
+        have hps : AllInNsList u (d.params.map (fun kv => writeParameter u kv.2)) :=
+          allInNsList_map u _ _ (fun kv _ => parameter_in_namespace u kv.2)
+        exact node_in_namespace u _ _ _ _ ⟨leaf_in_namespace u _ _ _,
+          node_in_namespace u _ _ _ _ ⟨node_in_namespace u _ _ _ _ hts, node_in_namespace u _ _ _ _ hps,
+            node_in_namespace u _ _ _ _ hcs, trivial⟩, trivial⟩
+
 end Spp.C15
